@@ -1,84 +1,217 @@
 #!/usr/bin/env python3
-"""X translator for C15: every object with static storage in a writable section of the library built from
-the working tree, and whether any instruction in the library stores to it (direct store through a
-PC-relative relocation) or takes its address.  Output: lean/Mpir/Gen/Globals.lean."""
-import os, re, subprocess, sys
+"""X translator for C15 (binary side): every object with static storage in a writable section of the library
+built from the working tree — global, file-static and function-static alike (local symbols `l O` of objdump -t,
+i.e. nm's `b`/`d`, in ANY section that is ALLOC and not READONLY: .data, .bss, .data.rel.local, .data.rel.ro*,
+common) — and, per object, every instruction of the library that stores to it / loads from it / takes its address
+(PC-relative, GOT and absolute relocations; section-relative references to local symbols are resolved to the
+exact byte with the length of the instruction), attributed to the function that contains the instruction, plus
+the addresses placed into initialised data (relocations of data sections).
+Output: lean/Mpir/Gen/Globals.lean."""
+import os, re, subprocess, sys, bisect
 sys.path.insert(0, os.path.dirname(os.path.abspath(__file__)))
 import vlib
 
-NOWRITE = re.compile(r"^(cmp|test|ucomis|comis|bt$|btq|btl|push|call|jmp|nop|prefetch|mul|imul|div|idiv|fld|fild|lea|cvt|vucomis|vcomis|pcmp|ptest|vptest)")
+NOWRITE = re.compile(r"^(cmp|test|ucomis|comis|bt$|btq|btl|btw|push|call|jmp|nop|prefetch|mul|imul|div|idiv|fld|fild|fadd|fsub|fmul|fdiv|fcom|fucom|lea|cvt|vucomis|vcomis|vcvt|pcmp|vpcmp|ptest|vptest)")
+RMW1 = re.compile(r"^(inc|dec|neg|not|set|pop|fst|fist|fnst|fxsave|stmxcsr|sh[lr]|sa[lr]|ro[lr]|rc[lr]|lock)")
 
-def scan(build):
-    lib = os.path.join(build, ".libs", "libmpir.a")
-    nm = subprocess.run(["nm", "-A", lib], stdout=subprocess.PIPE, stderr=subprocess.DEVNULL, check=True).stdout.decode()
-    objs = {}   # (member, name) -> kind
-    for l in nm.splitlines():
-        m = re.match(r".*?:([^:]+\.o):([0-9a-f]+) ([dDbBC]) (\S+)$", l)
-        if m: objs[(m.group(1), m.group(4))] = (m.group(3), int(m.group(2), 16))
-    # section offset -> symbol, per member, for local symbols referenced as .data+off / .bss+off
-    sym_at = {}
-    for (mem, name), (kind, off) in objs.items():
-        sec = ".bss" if kind in "bB" else ".data"
-        sym_at.setdefault(mem, []).append((sec, off, name))
-    dis = subprocess.run(["objdump", "-dr", "--no-show-raw-insn", lib], stdout=subprocess.PIPE, stderr=subprocess.DEVNULL, check=True).stdout.decode()
-    written, taken = {}, {}
-    member = None; last_insn = None
-    names_global = {}
-    for (mem, name) in objs: names_global.setdefault(name, []).append(mem)
-    for l in dis.splitlines():
+def _out(cmd):
+    return subprocess.run(cmd, stdout=subprocess.PIPE, stderr=subprocess.DEVNULL, check=True).stdout.decode(errors="replace")
+
+def sections(lib):
+    """member -> {section name: (size, writable, code)} from objdump -h"""
+    res = {}; member = None; cur = None
+    for l in _out(["objdump", "-h", lib]).splitlines():
+        m = re.match(r"^(\S+\.o):\s+file format", l)
+        if m: member = m.group(1); res[member] = {}; continue
+        m = re.match(r"^\s*\d+\s+(\S+)\s+([0-9a-f]+)\s", l)
+        if m: cur = (m.group(1), int(m.group(2), 16)); continue
+        if cur and member and re.match(r"^\s+[A-Z]", l):
+            fl = [x.strip() for x in l.split(",")]
+            res[member][cur[0]] = (cur[1], "ALLOC" in fl and "READONLY" not in fl and "CODE" not in fl and "DEBUGGING" not in fl, "CODE" in fl)
+            cur = None
+    return res
+
+def symbols(lib, secs):
+    """objects in writable sections: {(member, name): dict(sect, off, size, local)}; also per member the list of
+    (section, off, size, name) for section-relative resolution, and the set of function symbols"""
+    objs = {}; member = None; funcs = {}
+    for l in _out(["objdump", "-t", lib]).splitlines():
         m = re.match(r"^(\S+\.o):\s+file format", l)
         if m: member = m.group(1); continue
-        m = re.match(r"^\s*[0-9a-f]+:\s+(\S+)\s*(.*)$", l)
-        if m and "R_X86_64" not in l:
-            last_insn = (m.group(1), m.group(2)); continue
-        m = re.match(r"^\s*[0-9a-f]+:\s+R_X86_64_(\w+)\s+(\S+?)([-+]0x[0-9a-f]+)?$", l)
-        if not m or not last_insn: continue
-        rtype, target, addend = m.group(1), m.group(2), int(m.group(3) or "0", 16)
-        if not re.match(r"(PC32|GOTPCREL\w*|REX_GOTPCRELX|32S?|64)$", rtype): continue
-        # resolve the object the relocation refers to
-        name = None
-        if target in (".data", ".bss"):
-            cands = [(off, n) for (sec, off, n) in sym_at.get(member, []) if sec == target and off <= addend + 4 + 8]
-            # PC32 addend is target-4 (or more for instructions with an immediate); pick the symbol containing it
-            best = None
-            for off, n in sorted(cands):
-                if off <= addend + 4: best = n
-            name = best
-            key = (member, name) if name else None
-        elif target in names_global:
-            name = target; key = (names_global[target][0], name) if len(names_global[target]) == 1 else ((member, name) if (member, name) in objs else (names_global[target][0], name))
-        else: continue
-        if not key or key not in objs: continue
-        mnem, ops = last_insn
-        is_store = False
-        if "(%rip)" in ops:
-            parts = [p.strip() for p in re.split(r",(?![^()]*\))", ops)]
-            last = parts[-1]
-            if "(%rip)" in last and not NOWRITE.match(mnem):
-                if len(parts) >= 2 or re.match(r"^(inc|dec|neg|not|set|pop|fst|fist)", mnem): is_store = True
-            if mnem.startswith("lea"): taken[key] = taken.get(key, 0) + 1
-        elif "GOTPCREL" in rtype:
-            taken[key] = taken.get(key, 0) + 1        # address loaded from the GOT: may be written through
-        if rtype in ("64", "32", "32S") and "(%rip)" not in ops: taken[key] = taken.get(key, 0) + 1
-        if is_store: written[key] = written.get(key, 0) + 1
-    return objs, written, taken
+        m = re.match(r"^([0-9a-f]{16}) (.{7}) (\S+)\t([0-9a-f]{16}) (?:\.hidden |\.internal |\.protected )?(\S+)$", l)
+        if not m or member is None: continue
+        val, flags, sec, size, name = int(m.group(1), 16), m.group(2), m.group(3), int(m.group(4), 16), m.group(5)
+        if "d" in flags[5:6] or "f" in flags[6:7] and sec == "*ABS*": continue        # section / file symbols
+        if "F" in flags: funcs.setdefault(member, set()).add(name); continue
+        if sec == "*COM*":
+            objs[(member, name)] = dict(sect="*COM*", off=0, size=val, local=False); continue
+        if sec in ("*UND*", "*ABS*"): continue
+        info = secs.get(member, {}).get(sec)
+        if not info or not info[1]: continue
+        if name.startswith(".L") and size == 0: continue
+        objs[(member, name)] = dict(sect=sec, off=val, size=size, local=(flags[0] == "l"))
+    return objs, funcs
+
+def scan2(build):
+    """returns (objs, refs, initaddrs, anon):
+       refs: list of (member, function, object key, kind) with kind in store/load/addr
+       initaddrs: list of (member, holder section+off or holder object name, object key): addresses placed in initialised data
+       anon: references into writable sections that no symbol covers (reported; must be empty)"""
+    lib = os.path.join(build, ".libs", "libmpir.a")
+    secs = sections(lib)
+    objs, funcs = symbols(lib, secs)
+    by_member = {}
+    for (mem, name), o in objs.items(): by_member.setdefault(mem, []).append((o["sect"], o["off"], max(o["size"], 1), name))
+    by_name = {}
+    for (mem, name), o in objs.items():
+        if not o["local"]: by_name.setdefault(name, []).append(mem)
+    anon = []
+    def resolve(member, target, off):
+        """object key for `target` (symbol or section name) at byte offset `off` inside it"""
+        if target in secs.get(member, {}):
+            if not secs[member][target][1]: return None
+            for (sec, o, sz, n) in by_member.get(member, []):
+                if sec == target and o <= off < o + sz: return (member, n)
+            if target.startswith(".data.rel.ro"):       # an unnamed relocated constant table (assembly kernels' jump tables)
+                objs[(member, target)] = dict(sect=target, off=0, size=secs[member][target][0], local=True)
+                by_member.setdefault(member, []).append((target, 0, max(secs[member][target][0], 1), target)); return (member, target)
+            anon.append("%s:%s+0x%x" % (member, target, off)); return None
+        if (member, target) in objs: return (member, target)
+        if target in by_name: return (by_name[target][0], target)
+        return None
+    refs = []; initaddrs = []; calls = set()
+    allfuncs = set()
+    for fs in funcs.values(): allfuncs |= fs
+    # ---- code: disassembly with relocations
+    member = None; func = None; insns = []      # insns of the current function: [addr, mnem, ops, [relocs]]
+    def flush(next_addr):
+        for i, (addr, mnem, ops, rl) in enumerate(insns):
+            nxt = insns[i + 1][0] if i + 1 < len(insns) else next_addr
+            if not rl and func and mnem.startswith(("call", "jmp")):                  # call of a function in the same section: resolved by the assembler, no relocation
+                mm = re.search(r"<([^>+]+)(\+0x[0-9a-f]+)?>", ops)
+                if mm and mm.group(1) != func: calls.add((func, mm.group(1)))
+            for (roff, rtype, target, addend) in rl:
+                if target in allfuncs and func: calls.add((func, target))       # direct call / tail call / address of a function
+                if re.match(r"(PLT32|TLS|GOTTPOFF|TPOFF|DTPOFF)", rtype): continue
+                if rtype.startswith("PC") and target in secs.get(member, {}):
+                    off = addend + ((nxt - roff) if nxt is not None and 0 < nxt - roff <= 12 else 4)
+                elif rtype.startswith("PC") or "GOT" in rtype: off = 0          # named symbol: the addend only selects a field
+                else: off = addend
+                key = resolve(member, target, off)
+                if not key: continue
+                kind = "load"
+                if "GOT" in rtype: kind = "addr"                                # address fetched from the GOT: may be written through
+                elif "(%rip)" in ops:
+                    parts = [p.strip() for p in re.split(r",(?![^()]*\))", ops.split("#")[0])]
+                    last = parts[-1]
+                    if mnem.startswith("lea"): kind = "addr"
+                    elif "(%rip)" in last and not NOWRITE.match(mnem) and (len(parts) >= 2 or RMW1.match(mnem)): kind = "store"
+                    elif mnem.startswith(("xchg", "xadd", "cmpxchg")): kind = "store"
+                else: kind = "addr"                                             # absolute address as an immediate
+                refs.append((member, func or "?", key, kind))
+    for l in _out(["objdump", "-dr", "--no-show-raw-insn", lib]).splitlines():
+        m = re.match(r"^(\S+\.o):\s+file format", l)
+        if m: flush(None); insns = []; member = m.group(1); func = None; continue
+        m = re.match(r"^([0-9a-f]+) <([^>]+)>:$", l)
+        if m: flush(int(m.group(1), 16)); insns = []; func = m.group(2); continue
+        m = re.match(r"^\s*([0-9a-f]+):\s+R_X86_64_(\w+)\s+(\S+?)([-+]0x[0-9a-f]+)?$", l)
+        if m:
+            if insns: insns[-1][3].append((int(m.group(1), 16), m.group(2), m.group(3), int(m.group(4) or "0", 16)))
+            continue
+        m = re.match(r"^\s*([0-9a-f]+):\t(\S+)\s*(.*)$", l)
+        if m: insns.append([int(m.group(1), 16), m.group(2), m.group(3), []]); continue
+        if l.startswith("Disassembly of section"): flush(None); insns = []; func = None
+    flush(None)
+    # ---- data: relocations of non-code, non-debug sections (addresses in static initialisers)
+    member = None; sec = None
+    for l in _out(["objdump", "-r", lib]).splitlines():
+        m = re.match(r"^(\S+\.o):\s+file format", l)
+        if m: member = m.group(1); sec = None; continue
+        m = re.match(r"^RELOCATION RECORDS FOR \[(.*)\]:", l)
+        if m: sec = m.group(1); continue
+        m = re.match(r"^([0-9a-f]{16}) R_X86_64_(\w+)\s+(\S+?)([-+]0x[0-9a-f]+)?$", l)
+        if not m or not member or not sec: continue
+        info = secs.get(member, {}).get(sec)
+        if not info or info[2] or sec.startswith((".debug", ".eh_frame", ".rela", ".note")): continue
+        key = resolve(member, m.group(3), int(m.group(4) or "0", 16))
+        if not key: continue
+        hoff = int(m.group(1), 16); holder = "%s+0x%x" % (sec, hoff)
+        for (s2, o, sz, n) in by_member.get(member, []):
+            if s2 == sec and o <= hoff < o + sz: holder = n
+        initaddrs.append((member, holder, key))
+    scan2.calls = calls
+    return objs, refs, initaddrs, sorted(set(anon))
+
+def reach(calls, writers):
+    """functions from which one of `writers` is reachable through direct calls (or address-of-function references)"""
+    rev = {}
+    for a, b in calls: rev.setdefault(b, set()).add(a)
+    seen = set(writers); todo = list(writers)
+    while todo:
+        f = todo.pop()
+        for g in rev.get(f, ()):
+            if g not in seen: seen.add(g); todo.append(g)
+    return seen
+
+def scan(build):
+    """compatibility view: (objs {key: (nm-like kind, off)}, written {key: n}, taken {key: n})"""
+    objs, refs, initaddrs, anon = scan2(build)
+    o2 = {k: (_kind(v), v["off"]) for k, v in objs.items()}
+    written, taken = {}, {}
+    for (mem, fn, key, kind) in refs:
+        if kind == "store": written[key] = written.get(key, 0) + 1
+        elif kind == "addr": taken[key] = taken.get(key, 0) + 1
+    for (mem, holder, key) in initaddrs: taken[key] = taken.get(key, 0) + 1
+    return o2, written, taken
+
+def _kind(v):
+    c = "C" if v["sect"] == "*COM*" else ("b" if v["sect"].startswith(".bss") else "d")
+    return c if v["local"] or c == "C" else c.upper()
+
+def lean_str(s): return '"' + s.replace("\\", "\\\\").replace('"', '\\"') + '"'
 
 def gen_globals(ctx):
     build = ctx.build
-    objs, written, taken = scan(build)
-    if len(objs) < 5: raise RuntimeError("global scan found only %d writable objects: nm/objdump output not understood" % len(objs))
+    objs, refs, initaddrs, anon = scan2(build)
+    if len(objs) < 5: raise RuntimeError("global scan found only %d writable objects: objdump output not understood" % len(objs))
+    if anon: raise RuntimeError("references into writable sections that no symbol covers: %s" % ", ".join(anon[:8]))
+    cnt = {}
+    for (mem, fn, key, kind) in refs: cnt[(key, kind)] = cnt.get((key, kind), 0) + 1
+    for (mem, holder, key) in initaddrs: cnt[(key, "addr")] = cnt.get((key, "addr"), 0) + 1
     rows = []
-    for (mem, name), (kind, off) in sorted(objs.items(), key=lambda x: (x[0][1], x[0][0])):
-        rows.append('  { name := "%s", file := "%s", sect := "%s", stores := %d, addrTaken := %d }' % (name, mem, kind, written.get((mem, name), 0), taken.get((mem, name), 0)))
+    for (mem, name), o in sorted(objs.items(), key=lambda x: (x[0][1], x[0][0])):
+        k = (mem, name)
+        rows.append('  { name := %s, base := %s, file := %s, sect := %s, size := %d, isLocal := %s, relro := %s, stores := %d, loads := %d, addrTaken := %d }' % (
+            lean_str(name), lean_str(re.sub(r"\.\d+$", "", name)), lean_str(mem), lean_str(o["sect"]), o["size"], "true" if o["local"] else "false",
+            "true" if o["sect"].startswith(".data.rel.ro") else "false", cnt.get((k, "store"), 0), cnt.get((k, "load"), 0), cnt.get((k, "addr"), 0)))
+    sf = sorted({(key[1], key[0], fn) for (mem, fn, key, kind) in refs if kind == "store"})
+    af = sorted({(key[1], key[0], fn) for (mem, fn, key, kind) in refs if kind == "addr"})
+    ia = sorted({(key[1], key[0], "%s:%s" % (mem, holder)) for (mem, holder, key) in initaddrs})
+    cells = ["__gmp_allocate_func", "__gmp_reallocate_func", "__gmp_free_func", "__gmp_default_fp_limb_precision", "__gmp_errno", "__gmp_rands", "__gmp_rands_initialized"]
+    cr = []
+    for c in cells:
+        ws = {fn for (mem, fn, key, kind) in refs if key[1] == c and kind in ("store", "addr")}
+        cr += [(c, f) for f in sorted(reach(scan2.calls, ws))]
+    def tbl(name, doc, xs):
+        return "/-- %s -/\ndef %s : List (String × String × String) := [\n%s\n]\n" % (doc, name, ",\n".join("  (%s, %s, %s)" % tuple(lean_str(x) for x in t) for t in xs))
     txt = ("-- GENERATED by tools/gen_globals.py from the library built from the working tree — do not edit.\n"
-           "namespace Mpir.Gen\nstructure GlobalObj where\n  name : String\n  file : String\n  sect : String\n  stores : Nat\n  addrTaken : Nat\n  deriving Repr, DecidableEq\n\n"
-           "/-- every object with static storage in a writable section (.data/.bss/common) of libmpir.a,\n    with the number of instructions that store to it directly / take its address -/\n"
-           "def globals : List GlobalObj := [\n" + ",\n".join(rows) + "\n]\nend Mpir.Gen\n")
+           "namespace Mpir.Gen\nstructure GlobalObj where\n  name : String\n  base : String   -- source name (gcc appends `.N` to function-statics)\n  file : String\n  sect : String\n  size : Nat\n  isLocal : Bool\n  relro : Bool\n  stores : Nat\n  loads : Nat\n  addrTaken : Nat\n  deriving Repr, DecidableEq\n\n"
+           "/-- every object with static storage in a writable section (.data*/.bss/common; global, file-static and\n    function-static) of libmpir.a, with the number of instructions that store to it directly / load from it /\n    take its address (`relro`: section .data.rel.ro*, i.e. a `const` object that only the loader's relocation\n    pass writes, before any thread exists) -/\n"
+           "def globals : List GlobalObj := [\n" + ",\n".join(rows) + "\n]\n\n"
+           + tbl("storeFuncs", "(object, archive member of the object, function symbol) for every function of the library that contains an instruction storing directly to the object", sf) + "\n"
+           + tbl("addrFuncs", "(object, member, function symbol) for every function that materialises the address of the object (lea / GOT / absolute)", af) + "\n"
+           + tbl("initAddrs", "(object, member, holder) for every address of a writable object placed in initialised data (static initialiser)", ia)
+           + "\n/-- (documented cell, function symbol) for every function of the library from which a function that stores to the cell, or\n    materialises its address, is reachable through direct calls (relocations against function symbols; `__gmp_junk` left out) -/\n"
+           + "def cellReach : List (String × String) := [\n" + ",\n".join("  (%s, %s)" % (lean_str(a), lean_str(b)) for a, b in cr) + "\n]\n"
+           + "end Mpir.Gen\n")
     p = os.path.join(vlib.LEAN, "Mpir", "Gen", "Globals.lean")
     return [p] if vlib.write_if_changed(p, txt) else []
 
 if __name__ == "__main__":
-    class C: pass
-    c = C(); c.build = sys.argv[1]
-    objs, w, t = scan(c.build)
-    for k in sorted(objs, key=lambda x: x[1]): print(k[1], k[0], objs[k][0], "stores=%d" % w.get(k, 0), "taken=%d" % t.get(k, 0))
+    objs, refs, initaddrs, anon = scan2(sys.argv[1])
+    for k in sorted(objs, key=lambda x: x[1]):
+        c = {}
+        for (mem, fn, key, kind) in refs:
+            if key == k: c.setdefault(kind, set()).add(fn)
+        print(k[1], k[0], objs[k]["sect"], objs[k]["size"], "local" if objs[k]["local"] else "global", {a: sorted(b) for a, b in c.items()})
+    print("initaddrs", initaddrs); print("anon", anon)
